@@ -117,7 +117,13 @@ func (a *Amqp) consumeAMQP() {
 		select {
 		case m := <-a.delivery:
 			// note that we don't support lines longer than 4096B. that seems very reasonable..
-			r := bufio.NewReaderSize(bytes.NewReader(m.Body), 4096)
+			body := m.Body
+			if n := len(body); n > 0 && body[n-1] == '\r' {
+				// a last line without "\n" may still end in "\r": ReadLine only strips "\r\n",
+				// so complete the terminator (on a copy, the delivery is not ours to modify)
+				body = append(body[:n:n], '\n')
+			}
+			r := bufio.NewReaderSize(bytes.NewReader(body), 4096)
 			for {
 				buf, _, err := r.ReadLine()
 
